@@ -589,6 +589,9 @@ def main(argv=None):
     "seed_range": [0, total],
     "distinct_by_measure": {k: len(v) for k, v in sorted(agg.distinct.items())},
     "counters": {k: agg.counts[k] for k in sorted(agg.counts)},
+    "faults_injected": {k[len("fault."):]: agg.counts[k] for k in sorted(agg.counts) if k.startswith("fault.")},
+    "fault_note": desc.get("fault_note", ""),
+    "probes": {k[len("probe."):]: agg.counts[k] for k in sorted(agg.counts) if k.startswith("probe.")},
     "simulated_time": desc.get("simulated_time", "not applicable: the code under this property has no clock or timer"),
     "components": desc["components"],
     "determinism_selftest": det,
